@@ -40,7 +40,8 @@ Section Mono.
 
   Lemma mono_leaf l sup w : mono w (exec_leaf rec l sup w).
   Proof.
-    destruct l; cbn [exec_leaf]; try (apply mono_same; reflexivity).
+    destruct l as [k|b| |n|n|a|a|o b|f|a]; cbn [exec_leaf]; try (destruct a; apply mono_same; reflexivity);
+      try (apply mono_same; reflexivity).
     destruct (lookup f (funs (sh w))); [|apply mono_same; reflexivity].
     apply mono_bind.
     - eapply mono_shift; [|apply Hrec]. reflexivity.
@@ -135,6 +136,7 @@ Section Mono.
     - apply mono_bind; [apply mono_for|]. intros; apply mono_finish.
     - apply mono_bind; [apply mono_case|]. intros; apply mono_finish.
     - apply mono_same; reflexivity.
+    - apply Hrec.
   Qed.
 
   Lemma mono_while_step u c b sup res w : mono w (while_step rec recw u c b sup res w).
